@@ -17,4 +17,8 @@ CHECKS = {
         "text": "Theorems (closed under the global context): the cut-off rule is exactly 'count >= cutoff*total, or count > 0 at cutoff 0' over Q; for every decision vector the reported kept/removed indices are ascending, disjoint and a permutation of all columns; plain mode removes exactly the qualifying sites; ends mode removes exactly the maximal qualifying prefix and suffix (maximality proved) and reports their lengths; the result is the selection of kept columns with names and order intact; the per-sequence variant keeps exactly the non-qualifying rows. The model of the per-site counting (ignore options, alphabet wildcard, case folding, inverted selection, majority via MaxCharStats) is tied to the code by the per-run correspondence.",
         "note": "Trusted: kernel+VM, harness, hand model; cut-offs in Q, fed as dyadic rationals (exact in float64).",
     },
+    "C13": {
+        "text": "Theorems (closed under the global context), by induction over the whole input with an explicit loop invariant for Deduplicate's fold: kept rows are exactly the first occurrences of each distinct comparison key in original order, keys of kept rows are pairwise distinct, one group per kept row headed by its name, groups together a permutation of the input names, idempotence; for Compress: patterns pairwise distinct, exactly the distinct input columns in bytewise order, weights = exact multiplicities, weights sum to L, and every Z-valued column-additive statistic is preserved (sum over columns = weighted sum over patterns).",
+        "note": "Trusted: kernel+VM, harness, hand model (radix-tree walk = sorted distinct patterns; in-place rewrite = new rows).",
+    },
 }
